@@ -188,3 +188,7 @@ PROPS["C08"]["rule"] = PROPS["C08"].get("rule", "") + "; stableconc (implementat
 for _p in ("C10", "C12", "C06"):
     PROPS[_p]["streams"] = PROPS[_p]["streams"] + [S("readfault", 150, 4000, vm=(0, 0), timeout=3000)]
     PROPS[_p]["rule"] = PROPS[_p].get("rule", "") + "; readfault (implementation only, crashfs): one ReadAt of a segment file fails once with EIO -- the k-th read of a GetLog (result must be an error or the right entry; afterwards all entries read back, also with a second GetLog nested inside the first one's Decode, whose input bytes must not change) and the k-th read of an Open (Open fails or returns the complete log; the next Open and a clean reopen return the complete log)"
+
+# C14 beyond the single-writer model: two mutating goroutines with a pending rotation (implementation only)
+PROPS["C14"]["streams"] = PROPS["C14"]["streams"] + [S("twowriters", 32, 640, vm=(0, 0), timeout=3000)]
+PROPS["C14"]["rule"] = PROPS["C14"].get("rule", "") + "; twowriters (implementation only): StoreLogs on one goroutine, DeleteRange (whole log, suffix, prefix, far beyond) on another, both waiting for a queued rotation, woken in either order while the next rotation is queued; the log must equal the two calls applied in lock order, accept the next append and survive two Close/Open cycles"
